@@ -80,18 +80,17 @@ def pad2d(array, Q=2, value=0, mode='constant', out_shape=None):
             if isinstance(out_shape, int):
                 out_shape = [out_shape]*array.ndim
 
-        shape_diff = [o-i for o, i in zip(out_shape, in_shape)]
+        # the origin (sample n//2) of the input lands on the origin of the output
+        dbytwo = [o//2 - i//2 for o, i in zip(out_shape, in_shape)]
         pad_shape = []
-        for d in shape_diff:
-            divby2 = d//2
-            lcl = (d-divby2, divby2)  # 13 => 6; (7,6) correct; 12 => 6; (6,6) correct
+        for o, i, left in zip(out_shape, in_shape, dbytwo):
+            lcl = (left, o-i-left)
             pad_shape.append(lcl)
 
         if mode == 'constant':
             # TODO: clean this garbage up, the code here shouldn't be completely
             # non common mode the way it is
 
-            dbytwo = [math.ceil(d/2) for d in shape_diff]
             slcs = tuple((slice(d, d+s) for d, s in zip(dbytwo, in_shape)))
             out = np.zeros(out_shape, dtype=array.dtype)
             if value != 0:
@@ -125,8 +124,8 @@ def crop_center(img, out_shape):
     if isinstance(out_shape, int):
         out_shape = (out_shape, out_shape)
 
-    padding = [i-o for i, o in zip(img.shape, out_shape)]
-    left = [math.ceil(p/2) for p in padding]
+    # the origin (sample n//2) of the input lands on the origin of the output
+    left = [i//2 - o//2 for i, o in zip(img.shape, out_shape)]
     slcs = tuple((slice(l, l+o) for l, o in zip(left, out_shape)))  # NOQA -- l ambiguous
     return img[slcs]
 
